@@ -8,12 +8,17 @@ SPEC = hdr_spec(
          "loaded repository; retained depth = side branches whose fork point is within the load depth; non-trivial = at least 8 submissions",
     props_file="C11", extra=spine_scripts(['files']), thorough_n=5000,
     assumptions=["legacy version-0 header files (migration) are not generated: the model returns 'migrate: not modelled' for them; empty storage is covered"],
-    partial_note="observational equivalence of the loaded repository is checked on every generated history, not yet proved; migration of version-0 files is not covered.")
+    partial_note="for LINEAR chains (one branch, any length, any load depth >= 0) Save-then-Load observational equivalence is a theorem (C11_save_load_linear: tip, header at "
+                 "every height from memory or files, height of every hash incl. pruned ones, invalid list). With side branches (sort + link of the loaded branches), repeated "
+                 "generations, consolidations and continued submissions it is checked on every generated history, not proved; migration of version-0 files is not covered.")
 
 META = dict(
-    technique="Lean 4 proof (branch file write/merge/rebuild lemmas, index and invalid-list persistence) + model/implementation correspondence on dump;save;load;dump",
+    technique="Lean 4 proof (Save/Load round trip for linear chains: exact main-file layout, loadHistoricalHashHeights specification, pruning on load; branch file write/merge/rebuild lemmas, index and invalid-list persistence) + model/implementation correspondence on dump;save;load;dump",
     text="Theorems for every repository state: a first Save of a branch writes exactly the branch; a pruned branch saved again is merged with its earlier file (history kept); "
          "a branch rebuilt from its file has the same fields; the index names every tracked branch in order; the invalid list round-trips merged with the configured hashes; "
-         "empty storage loads to genesis; record/file constants are the extracted ones.",
+         "empty storage loads to genesis; record/file constants are the extracted ones. For every linear chain reached by submissions from genesis (any length, across "
+         "the 1000-header files) and every load depth >= 0: Save succeeds and writes exactly header k as record k % 1000 of file k / 1000, one branch file and the index; Load of that "
+         "succeeds and the loaded repository reports the same tip, the same header at every height >= 0 (memory above the load depth, files below), the same height for every "
+         "hash (pruned ones via the historical heights, unknown ones stay unknown) and the merged invalid list (C11_save_load_linear, C11_save_writes_linear).",
     note=COMMON_NOTE + "Partial: see evidence.",
 )
